@@ -177,9 +177,6 @@ impl<W, R, T> Heap<W, R, T> {
     { unimplemented!() }
 }
 
-/// std::cmp::min by its documented meaning (`b` only when it is strictly smaller)
-pub assume_specification<X: Ord> [std::cmp::min::<X>] (a: X, b: X) -> (r: X)
-    ensures r == (if vstd::std_specs::cmp::OrdSpec::cmp_spec(&b, &a) == core::cmp::Ordering::Less { b } else { a });
 
 /// the element list of a sequence a copying update produced
 pub open spec fn vals<W, R, T>(s: XSequence<W, R, T>) -> Seq<Val<W, R, T>> {
@@ -190,6 +187,8 @@ pub open spec fn is_seq<W, R, T>(r: RuntimeResult<TailedEvalResult<W, R, T>>, l:
     r matches Ok(t) ==> (t is Value && t->Value_0 is Ok && t->Value_0->Ok_0.value is Native
         && !(*(t->Value_0->Ok_0.value->Native_0) is Other) && vals(*(t->Value_0->Ok_0.value->Native_0)) =~= l)
 }
+
+// @@INCLUDE stdx@@
 
 // @@EXTRACTED@@
 
